@@ -1,7 +1,8 @@
 /-
-  The Pratt parser reads back what the printer prints: for every operator tree over identifiers and
-  the binary operators, printed with exactly the parentheses that the documented precedence levels and
-  left-to-right grouping make necessary, the parser returns that very tree - any size, any shape.
+  The Pratt parser reads back what the printer prints: for every operator tree over atoms (identifiers
+  and literals), prefix operators, binary operators and index expressions, printed with exactly the
+  parentheses that the documented precedence levels and left-to-right grouping make necessary, the parser
+  returns that very tree - any size, any shape.
   (The invariant: parsing the printed tree below its level is the same as continuing the infix loop
   with the tree already built as the left operand.)
 -/
@@ -44,17 +45,20 @@ inductive T
   | leaf (tok : Token) (e : Expr)
   | pre (o : Token) (r : T)
   | node (o : Token) (l r : T)
+  | idx (l i : T)
 
 def T.wf : T → Prop
   | .leaf tok e => Atom tok e
   | .pre o r => Pre o ∧ r.wf
   | .node o l r => Bin o ∧ l.wf ∧ r.wf
+  | .idx l i => l.wf ∧ i.wf
 
 /-- the level of a tree: the precedence of its root operator; atoms bind tightest -/
 def T.lvl : T → Nat
   | .leaf _ _ => 100
   | .pre _ _ => PREFIX
   | .node o _ _ => precedence o.ty
+  | .idx _ _ => INDEX
 
 /-- the level below which the tree can stand as an operand without parentheses: a prefix operator
     is taken whatever the level -/
@@ -62,12 +66,16 @@ def T.plvl : T → Nat
   | .leaf _ _ => 100
   | .pre _ _ => 100
   | .node o _ _ => precedence o.ty
+  | .idx _ _ => INDEX
 
 def T.toExpr : T → Expr
   | .leaf _ e => e
   | .pre o r => .prefix o.lit r.toExpr
   | .node o l r => .infix o.lit l.toExpr r.toExpr
+  | .idx l i => .index l.toExpr i.toExpr
 
+def lsT : Token := ⟨.LSQUARE, ['[']⟩
+def rsT : Token := ⟨.RSQUARE, [']']⟩
 def lpT : Token := ⟨.LPAREN, ['(']⟩
 def rpT : Token := ⟨.RPAREN, [')']⟩
 
@@ -79,6 +87,7 @@ def T.pr : T → List Token
   | .leaf tok _ => [tok]
   | .pre o r => [o] ++ parenIf (r.lvl < PREFIX) r.pr
   | .node o l r => parenIf (l.lvl < precedence o.ty) l.pr ++ [o] ++ parenIf (r.lvl ≤ precedence o.ty) r.pr
+  | .idx l i => parenIf (l.lvl < INDEX) l.pr ++ [lsT] ++ i.pr ++ [rsT]
 
 
 /-- an identifier in operand position is an atom -/
@@ -192,17 +201,38 @@ theorem loop_step (f p : Nat) (left : Expr) (c o : Token) (rest : List Token) (p
   | none => rfl
   | some r => rfl
 
+/-- the loop takes an opening square bracket (it binds tighter than every level an operand is parsed at):
+    the index is parsed from the lowest level and the closing bracket is required -/
+theorem loop_index (f p : Nat) (left : Expr) (c : Token) (inner : List Token) (prev : Token) (tn fn : Bool) (d : Nat)
+    (hp : p < INDEX) :
+    infixLoop (f + 2) p left ⟨c :: lsT :: inner, prev, tn, fn, d⟩ =
+      (match parseExpression f LOWEST ⟨inner, lsT, tn, fn, d⟩ with
+       | none => none
+       | some (i, s2) =>
+         match s2.expectPeek .RSQUARE with
+         | none => none
+         | some s3 => infixLoop (f + 1) p (.index left i) s3) := by
+  have hp' : p < precedence TokType.LSQUARE := by simpa [precedence] using hp
+  simp [infixLoop, PState.peekIs, PState.peek, lsT, hp', infixFn, parseInfix, PState.next, PState.cur]
+  cases parseExpression f LOWEST ⟨inner, ⟨.LSQUARE, ['[']⟩, tn, fn, d⟩ with
+  | none => rfl
+  | some r =>
+    obtain ⟨e, s2⟩ := r
+    simp
+    cases s2.expectPeek .RSQUARE <;> rfl
 
 def T.size : T → Nat
   | .leaf _ _ => 1
   | .pre _ r => r.size + 3
   | .node _ l r => l.size + r.size + 3
+  | .idx l i => l.size + i.size + 3
 
 /-- fuel the infix loop has used up when `t` stands built as its left operand -/
 def T.k : T → Nat
   | .leaf _ _ => 1
   | .pre _ _ => 1
   | .node o l _ => (if l.lvl < precedence o.ty then 1 else l.k) + 1
+  | .idx l _ => (if l.lvl < INDEX then 1 else l.k) + 1
 
 /-- nesting of `parseExpression` calls needed for `t` -/
 def T.nest : T → Nat
@@ -210,6 +240,7 @@ def T.nest : T → Nat
   | .pre _ r => r.nest + 1 + (if r.lvl < PREFIX then 1 else 0)
   | .node o l r => max (l.nest + (if l.lvl < precedence o.ty then 1 else 0))
                        (r.nest + 1 + (if r.lvl ≤ precedence o.ty then 1 else 0))
+  | .idx l i => max (l.nest + (if l.lvl < INDEX then 1 else 0)) (i.nest + 1)
 
 theorem T.size_pos (t : T) : 1 ≤ t.size := by cases t <;> simp [T.size]
 theorem T.k_pos (t : T) : 1 ≤ t.k := by cases t <;> simp [T.k]
@@ -221,11 +252,16 @@ theorem T.k_le_size (t : T) : t.k ≤ t.size := by
     simp only [T.k, T.size]
     have := r.size_pos
     split <;> omega
+  | idx l i ihl ihi =>
+    simp only [T.k, T.size]
+    have := i.size_pos
+    split <;> omega
 theorem T.nest_pos (t : T) : 1 ≤ t.nest := by
   cases t with
   | leaf tok e => simp [T.nest]
   | pre o r => simp only [T.nest]; omega
   | node o l r => simp only [T.nest]; omega
+  | idx l i => simp only [T.nest]; omega
 
 def headPrec (rest : List Token) : Nat := precedence (rest.headD Token.eof).ty
 def lastTok (ts : List Token) : Token := ts.getLast?.getD Token.eof
@@ -244,12 +280,14 @@ theorem T.lvl_pos (t : T) (h : t.wf) : LOWEST < t.lvl := by
   | leaf tok e => simp [T.lvl, LOWEST]
   | pre o r => simp [T.lvl, LOWEST, PREFIX]
   | node o l r => exact h.1.prec_pos
+  | idx l i => simp [T.lvl, LOWEST, INDEX]
 
 theorem T.lvl_le_plvl (t : T) (h : t.wf) : t.lvl ≤ t.plvl := by
   cases t with
   | leaf tok e => simp [T.lvl, T.plvl]
   | pre o r => simp [T.lvl, T.plvl, PREFIX]
   | node o l r => simp [T.lvl, T.plvl]
+  | idx l i => simp [T.lvl, T.plvl]
 
 theorem T.plvl_pos (t : T) (h : t.wf) : LOWEST < t.plvl := Nat.lt_of_lt_of_le (t.lvl_pos h) (t.lvl_le_plvl h)
 
@@ -332,6 +370,7 @@ theorem L_all : ∀ (t : T), t.wf → Lstmt t
         cases r with
         | leaf tok e => simp [T.plvl, PREFIX]
         | pre o2 r2 => simp [T.plvl, PREFIX]
+        | idx l2 i2 => simp [T.plvl, PREFIX, INDEX]
         | node o2 l2 r2 =>
           have hne : precedence o2.ty ≠ PREFIX := by
             cases o2.ty <;> simp [precedence, PREFIX, LOWEST, TERNARY, ASSIGN, COND, EQUALS, CMP, LESSGREATER, SUM, PRODUCT, POWER, MOD, CALL, INDEX]
@@ -420,10 +459,64 @@ theorem L_all : ∀ (t : T), t.wf → Lstmt t
       · simp only [hb, ↓reduceIte] at hg ⊢; omega
     rw [hlast, hk]
     rfl
+  | .idx l i, hwf => by
+    obtain ⟨hwl, hwi⟩ := hwf
+    have ihl := L_all l hwl
+    have ihi := L_all i hwi
+    intro p f rest prev tn fn d hp hrest hd hf
+    simp only [T.lvl, T.plvl] at hp hrest
+    simp only [T.size] at hf
+    simp only [T.nest] at hd
+    have hkl := l.k_le_size
+    have hki := i.k_le_size
+    have hsl := l.size_pos
+    have hsi := i.size_pos
+    have e1 : (T.idx l i).pr ++ rest = parenIf (l.lvl < INDEX) l.pr ++ (lsT :: (i.pr ++ (rsT :: rest))) := by
+      simp [T.pr]
+    rw [e1]
+    obtain ⟨pv1, h1⟩ := operand_of_L l hwl ihl (decide (l.lvl < INDEX)) p f
+      (lsT :: (i.pr ++ (rsT :: rest))) prev tn fn d
+      (by
+        intro hb
+        have : ¬ (l.lvl < INDEX) := by simpa using hb
+        have := l.lvl_le_plvl hwl
+        refine ⟨by omega, ?_⟩
+        simp only [headPrec, List.headD_cons, lsT, precedence]; omega)
+      (by
+        by_cases hb : l.lvl < INDEX <;> simp [hb] at hd ⊢ <;> omega)
+      (by omega)
+    simp only [decide_eq_true_eq] at h1
+    rw [h1]
+    obtain ⟨g, hg⟩ : ∃ g, f - (if l.lvl < INDEX then 1 else l.k) = g + 2 :=
+      ⟨f - (if l.lvl < INDEX then 1 else l.k) - 2, by split <;> omega⟩
+    rw [hg, loop_index g p _ _ _ pv1 tn fn (d + 1) hp]
+    obtain ⟨pv2, h2⟩ := ihi LOWEST g (rsT :: rest) lsT tn fn (d + 1) (i.plvl_pos hwi)
+      (by simp [headPrec, rsT, precedence]; exact Nat.le_of_lt (i.lvl_pos hwi)) (by omega) (by split at hg <;> omega)
+    rw [h2]
+    obtain ⟨h, hh⟩ : ∃ h, g - i.k = h + 1 := ⟨g - i.k - 1, by split at hg <;> omega⟩
+    rw [hh, loop_stop h LOWEST _ _ (by simp [PState.peek, rsT, precedence, LOWEST])]
+    simp only [unwind, PState.expectPeek, PState.peekIs, PState.peek, List.tail_cons, List.headD_cons, rsT,
+      beq_self_eq_true, ↓reduceIte, PState.next, PState.cur, Nat.add_sub_cancel]
+    refine ⟨lastTok i.pr, ?_⟩
+    have hlast : lastTok (T.idx l i).pr = ⟨.RSQUARE, [']']⟩ := by
+      simp only [T.pr]
+      rw [lastTok_append_ne _ _ (by simp)]; rfl
+    have hk : f - (T.idx l i).k = g + 1 := by
+      simp only [T.k]
+      by_cases hb : l.lvl < INDEX
+      · simp only [hb, ↓reduceIte] at hg ⊢; omega
+      · simp only [hb, ↓reduceIte] at hg ⊢; omega
+    rw [hlast, hk]
+    rfl
 
 
 theorem T.size_le_pr (t : T) : t.size ≤ 4 * t.pr.length := by
   induction t with
+  | idx l i ihl ihi =>
+    simp only [T.size, T.pr, List.length_append, List.length_cons, List.length_nil]
+    have h1 : l.pr.length ≤ (parenIf (l.lvl < INDEX) l.pr).length := by
+      unfold parenIf; split <;> simp <;> omega
+    omega
   | leaf tok e => simp [T.size, T.pr]
   | pre o r ih =>
     simp only [T.size, T.pr, List.length_append, List.length_cons, List.length_nil]
@@ -441,9 +534,10 @@ theorem T.size_le_pr (t : T) : t.size ≤ 4 * t.pr.length := by
 def retTok : Token := ⟨.RETURN, ['r', 'e', 't', 'u', 'r', 'n']⟩
 def semiTok : Token := ⟨.SEMICOLON, [';']⟩
 
-/-- **The parser reads back what the printer prints.**  For every operator tree over identifiers and
-    the binary operators - of any size and shape - printed with exactly the parentheses the documented
-    levels and left-to-right grouping make necessary, `return <text>;` parses to that very tree. -/
+/-- **The parser reads back what the printer prints.**  For every operator tree over atoms, prefix
+    operators, binary operators and index expressions - of any size and shape - printed with exactly the
+    parentheses the documented levels and left-to-right grouping make necessary, `return <text>;` parses
+    to that very tree. -/
 theorem pratt_round_trip (t : T) (hwf : t.wf) (hn : t.nest ≤ maxNesting) :
     parse (retTok :: t.pr ++ [semiTok, Token.eof]) = some [.ret t.toExpr] := by
   have hsz := t.size_le_pr
